@@ -21,7 +21,10 @@ LAYOUTS = {
     'tiny2': ({"A": ((0.0, 0.0), ["B"]), "B": ((0.0, 8e-05), ["A"])}, True),
     'tri': ({"A": ((0.0, 0.0), ["B"]), "B": ((0.0, 1.0), ["C"]), "C": ((1.0, 0.0), ["A"])}, False),
     'fork': ({"A": ((0.0, 0.0), ["B"]), "B": ((0.0, 1.0), ["C", "D"]), "C": ((1.0, 2.0), []), "D": ((-1.0, 2.0), [])}, False),
+    # two-way road a-b, one-way parallel road p->q; only the direction (a,b) is linked to the parallel edge (see LINKED)
+    'par_link': ({"a": ((0.0, 0.0), ["b"]), "b": ((0.0, 1.0), ["a"]), "p": ((0.3, 0.0), ["q"]), "q": ((0.3, 1.0), [])}, True),
 }
+LINKED = {'par_link': {("a", "b"): [("p", "q")]}}
 
 
 def make_path(eng, T, mode, triples=False, ys=(0.25, 0.5, -0.25, 0.75), scale=1.0):
@@ -59,7 +62,10 @@ def concrete_path(model, path):
 def new_map(layout, use_latlon=False):
     from leuvenmapmatching.map.inmem import InMemMap
     g, _ = LAYOUTS[layout]
-    return InMemMap("m", graph={k: (v[0], list(v[1])) for k, v in g.items()}, use_latlon=use_latlon)
+    kw = {}
+    if layout in LINKED:
+        kw['linked_edges'] = {k: list(v) for k, v in LINKED[layout].items()}
+    return InMemMap("m", graph={k: (v[0], list(v[1])) for k, v in g.items()}, use_latlon=use_latlon, **kw)
 
 
 def c_pt_seg(p, a, b):
